@@ -1,5 +1,6 @@
 //! vharness: correspondence between /repo (linked in-process with `verif-hooks`) and the Lean
 //! model driver, plus per-property oracles used to search for replays (DESIGN.md §4.2, §5).
+mod c09;
 mod c11;
 mod driver;
 mod geom;
@@ -15,12 +16,14 @@ fn main() {
     let mut tier = "quick".to_string();
     let mut seed: u64 = 1;
     let mut out = String::new();
+    let mut replay: Option<String> = None;
     let mut i = 1;
     while i < args.len() {
         match args[i].as_str() {
             "--tier" => { tier = args[i + 1].clone(); i += 1; }
             "--seed" => { seed = args[i + 1].parse().unwrap_or(1); i += 1; }
             "--out" => { out = args[i + 1].clone(); i += 1; }
+            "--replay" => { replay = Some(args[i + 1].clone()); i += 1; }
             p => prop = p.to_string(),
         }
         i += 1;
@@ -28,7 +31,18 @@ fn main() {
     // panics of the implementation are caught per case; keep the default hook quiet
     std::panic::set_hook(Box::new(|_| {}));
     let mut rep = Report::new(&prop, &tier, seed);
+    if let Some(path) = &replay {
+        let v: serde_json::Value = std::fs::read_to_string(path).ok().and_then(|t| serde_json::from_str(&t).ok()).unwrap_or(serde_json::Value::Null);
+        match prop.as_str() {
+            "C09" => c09::replay(&mut rep, &v),
+            _ => rep.notes.push(format!("HARNESS-ERROR: no replay handler for {prop}")),
+        }
+        let text = serde_json::to_string_pretty(&rep.to_json()).unwrap();
+        std::fs::write(&out, text).expect("write report");
+        return;
+    }
     let r = match prop.as_str() {
+        "C09" => c09::run(&mut rep, &tier, seed),
         "C11" => c11::run(&mut rep, &tier, seed),
         other => Err(format!("no harness for property {other}")),
     };
